@@ -8,7 +8,7 @@
    enc U / decode_unknown U   the encoder / decoder models tied to the Go code by the correspondence *)
 From Coq Require Import NArith List.
 From MTV Require Import Base.Bytes Base.Outcome TL.Types TL.Codec TL.Typing TL.TLText TL.Match TL.Spec
-  TL.RoundTrip TL.SpecProofs.
+  TL.RoundTrip TL.SpecProofs TL.Conform TL.ConformProofs.
 Import ListNotations.
 Open Scope N_scope.
 
@@ -42,3 +42,28 @@ Print Assumptions C02_too_large_refused.
 Theorem C02_bytes_layout : forall m bs rest, put_bytes m = Some bs -> pop_bytes (bs ++ rest) = Some (m, rest).
 Proof. exact pop_put. Qed.
 Print Assumptions C02_bytes_layout.
+
+(* ... and that value is one the schema admits: the schema-level reading of a well-typed codec value
+   conforms to the TL type its Go type stands for (constructors of the right result type, arguments
+   conforming to the parameters, conditional arguments present or absent, enum members).
+   Side conditions (decidable, evaluated on the shipped registry and schema in Inst/C02x.v):
+   ids_distinct S, reg_consistent U, fields_exact U S; ty_exact for the pair of types at hand;
+   enums_members: enum fields hold members (the codec accepts any 32-bit value there). *)
+Theorem C02_value_conforms_to_schema : forall U S,
+  ids_distinct S = true -> reg_consistent U = true -> fields_exact U S = true ->
+  forall v t tt bs, let tbl := kind_table U S in
+  all_in_schema U S tbl v = true -> wt U t v = true -> ty_agrees U tbl tt t = true ->
+  ty_exact U S tt t = true -> enums_members U t v = true -> enc U v = Ok bs ->
+  conforms S (sdepth (abs U v)) tt (abs U v) = true.
+Proof. exact abs_conforms. Qed.
+Print Assumptions C02_value_conforms_to_schema.
+
+(* for a request: the function applied to conforming arguments *)
+Theorem C02_call_conforms_to_schema : forall U S,
+  ids_distinct S = true -> reg_consistent U = true -> fields_exact U S = true ->
+  forall tid fs bs, let tbl := kind_table U S in
+  all_in_schema U S tbl (VObj tid fs) = true -> wt U (TPtr tid) (VObj tid fs) = true ->
+  enums_members U (TPtr tid) (VObj tid fs) = true -> enc U (VObj tid fs) = Ok bs ->
+  conforms_call S (sdepth (abs U (VObj tid fs))) (abs U (VObj tid fs)) = true.
+Proof. exact abs_conforms_call. Qed.
+Print Assumptions C02_call_conforms_to_schema.
